@@ -85,6 +85,7 @@ type State struct {
 	model    map[string]*big.Int // a model of pc[:modelOK] (feasibility shortcut)
 	modelOK  int
 	hashInjective bool
+	initDone map[string]bool
 }
 
 func cloneFrames(fs []*Frame) []*Frame {
@@ -131,6 +132,10 @@ func (s *State) clone() *State {
 	n.onceRan = make(map[string]bool, len(s.onceRan))
 	for k, v := range s.onceRan {
 		n.onceRan[k] = v
+	}
+	n.initDone = make(map[string]bool, len(s.initDone))
+	for k, v := range s.initDone {
+		n.initDone[k] = v
 	}
 	n.covered = make(map[string]bool, len(s.covered))
 	for k, v := range s.covered {
@@ -359,6 +364,16 @@ func (w *W) globalPtr(s *State, g *ssa.Global) PtrV {
 	if !ok {
 		id = w.e.alloc(s, zeroValue(g.Type().(*types.Pointer).Elem()))
 		s.globals[g] = id
+	}
+	// first touch of a package whose initialiser has not run on this path: run it now
+	// (package-level tables and error values would otherwise silently read as zero)
+	if g.Pkg != nil && !w.e.inInit && !s.speculative && s.initDone != nil && !s.initDone[g.Pkg.Pkg.Path()] {
+		if initFn := g.Pkg.Func("init"); initFn != nil {
+			w.e.noteModel("lazy-init:" + g.Pkg.Pkg.Path())
+			w.runInit(s, initFn, true)
+		} else {
+			s.initDone[g.Pkg.Pkg.Path()] = true
+		}
 	}
 	return PtrV{Obj: id}
 }
